@@ -40,6 +40,18 @@ CLAIMED = {
  "C06": ("6/C06", "deterministic simulation: sanitizer called from concurrent tasks over a pooled-buffer shim (LIFO reuse, seeded GC drop) + monitor on every string at the reporter seam; rune-level reference model",
          "Seeded SanitizeOptions (arbitrary, empty, single-rune, multi-byte ranges, extra characters, any replacement rune) and strings up to 4 KiB biased to range end points +-1, multi-byte and invalid UTF-8; Name/Key/Value are called from several tasks at once while a scope workload pushes prefix, separator, subscope names, tags of every level and the cardinality metrics through the reporter seam; outputs must equal the reference model, contain only allowed or replacement runes, be idempotent and rune-count preserving, valid input unchanged. Exploration; the per-string function is pure (covered by generation), the simulator adds buffer-pool reuse across tasks and the whole-path monitor.",
          "As C01; the pool shim hands the most recently returned buffer to the next caller so that use-after-put is observable."),
+ "C12": ("6/C12", "deterministic simulation: real M3 reporter + real thrift encoder over an in-memory UDP socket; every datagram measured and decoded, seeded batch compositions, packet sizes, protocols and producer interleavings",
+         "Several producer tasks report seeded mixtures (incl. homogeneous bursts of tiny metrics and of histogram buckets, names up to 600 bytes, 0-8 tags, extreme values, 0-4 common tags, Compact and Binary, flushes at seeded positions, MaxPacketSizeBytes from a few metrics' worth up to 60000) through the real reporter, batching goroutine and codec into a simulated socket; every datagram with more than one metric must be <= MaxPacketSizeBytes, the decoded multiset must equal what was reported and each producer's order is preserved. Exploration; batch composition is input-dominated, the simulator adds producer interleavings, queue pressure and flush timing.",
+         "As C01; datagrams carrying a single metric are exempt (the statement assumes each metric fits on its own). The thrift codec runs real but un-instrumented."),
+ "C13": ("6/C13", "deterministic simulation: Allocate/Report/Flush histories from concurrent tasks followed by Close against the real reporter; decoded-datagram multiset, tag, timestamp and barrier oracle; separate send-fault profile",
+         "Every emitted datagram is decoded with the real codec and must be exactly one well-formed one-way emitMetricBatchV2 message carrying the configured common tags; every value reported before Close was called must appear exactly once with the name, kind, value and tags it was allocated with (bucket id / range tags for buckets, ids increasing with the bounds), timestamp between construction and the return of the call, everything emitted before Close returns, every destination receiving identical datagrams. Tag sets include pairs colliding in the reporter's tag-cache hash; values are reported immediately after construction. Under injected send errors a failed datagram may be missing as a whole, never altered or duplicated. Exploration.",
+         "As C12."),
+ "C14": ("6/C14", "deterministic simulation: producers, Flush and 1-3 Close callers racing on a tiny queue with send faults; panic/deadlock/leak oracle (+ race-detector slice)",
+         "Seeded interleavings of Allocate/Report on shared handles, Flush and concurrent Close callers (plus calls after Close) with queue sizes 1-4 and destinations that fail or are closed mid-run; no task may panic (send on closed channel), every task completes (deadlock = no enabled task after bounded clock advances, livelock = no completion under fair scheduling), exactly one Close returns nil, nothing goes on the wire after Close returned, the reporter's goroutines have exited. Exploration.",
+         "As C12. The data-race clause is covered only by the -race slice (happens-before based, schedule dependent)."),
+ "C15": ("6/C15", "deterministic simulation with fault sequences: Write/WriteByte/WriteString/Flush/Close sequences with oversize writes, send errors, closed sockets and abandoned messages against a byte-buffer reference model",
+         "Seeded call sequences on the single and multi destination UDP transports with chunk sizes around the 65000 byte limit and faults at seeded positions (refused write, failing send, socket closed by the environment, writer abandoning a message after an error); each Flush must produce exactly one datagram with exactly the bytes accepted since the previous Flush and leave the buffer empty whether or not the send failed, refused writes send nothing, the next message arrives complete and alone, multi transport fans out when no destination fails, Close is idempotent, use after Close errors. fault_enumeration-style exploration of a sequential API; no interleavings are involved (the transport is not used concurrently).",
+         "The socket is a stub (errors are 'this send returns an error'). Known finding D9 (stale prefix after an abandoned message) is recognised by its signature and reported as KNOWN-FINDING."),
 }
 
 NOT_APPLICABLE = {
